@@ -56,6 +56,33 @@ Proof.
     set (k := unit_size bits size) in *. clearbody k. nia.
 Qed.
 
+(* the same for every N: -size N / +N / -N as conditions on the size in bytes *)
+Lemma unit_size_le bits size k : unit_size bits size <= k <-> size <= k * 2 ^ bits.
+Proof.
+  assert (P : 0 < 2 ^ bits) by (apply N.neq_0_lt_0, N.pow_nonzero; lia).
+  destruct (N.eq_dec size 0) as [->|Hn]; [rewrite unit_size_zero; lia|].
+  pose proof (unit_size_ceil bits size ltac:(lia)) as C.
+  set (u := unit_size bits size) in *. clearbody u. set (w := 2 ^ bits) in *. clearbody w.
+  split; intros H.
+  - nia.
+  - destruct (N.le_gt_cases u k) as [L|G]; [exact L|]. assert (k <= u - 1) by lia. nia.
+Qed.
+Theorem size_more_n bits n size : matches (MoreThan n) (unit_size bits size) = true <-> n * 2 ^ bits < size.
+Proof. cbn. rewrite N.ltb_lt. pose proof (unit_size_le bits size n). lia. Qed.
+Theorem size_less_n bits n size : 0 < n ->
+  (matches (LessThan n) (unit_size bits size) = true <-> size <= (n - 1) * 2 ^ bits).
+Proof. intros Hn. cbn. rewrite N.ltb_lt. pose proof (unit_size_le bits size (n - 1)). lia. Qed.
+Theorem size_eq_n bits n size : 0 < n ->
+  (matches (EqualTo n) (unit_size bits size) = true <-> (n - 1) * 2 ^ bits < size <= n * 2 ^ bits).
+Proof.
+  intros Hn. cbn. rewrite N.eqb_eq.
+  pose proof (unit_size_le bits size n). pose proof (unit_size_le bits size (n - 1)). lia.
+Qed.
+Theorem size_eq_0 bits size : matches (EqualTo 0) (unit_size bits size) = true <-> size = 0.
+Proof. cbn. rewrite N.eqb_eq. pose proof (unit_size_le bits size 0). lia. Qed.
+Theorem size_less_0 bits size : matches (LessThan 0) (unit_size bits size) = false.
+Proof. cbn. apply N.ltb_ge. lia. Qed.
+
 (* the unit table: c=1, w=2, b or nothing=512, k=2^10, M=2^20, G=2^30 bytes; nothing else *)
 Theorem units_table :
   unit_bits [99%nat] = Some 0 /\ unit_bits [119%nat] = Some 1 /\ unit_bits [98%nat] = Some 9 /\ unit_bits [] = Some 9 /\
